@@ -38,7 +38,7 @@ package core
 
 // Entries are immutable; Count is a deterministic function of the entry
 // (the number of synchronizable entries in the sub-tree), abstracted by ecount.
-//@ immutable Entry Change
+//@ immutable Entry Change Snapshot
 //@ ufunc ecount(e *Entry) int
 //@ func (*Entry).Count
 //@   opaque
